@@ -260,6 +260,11 @@ func c04Check(in c04Input) (key, what string) {
 			if strings.HasPrefix(t, "//go:build") || strings.HasPrefix(t, "// +build") || strings.HasPrefix(t, "//+build") {
 				continue
 			}
+			if t == "//" {
+				// empty comment lines are go/printer's: its doc-comment formatter inserts one before the
+				// directives of a doc comment (a numbered line comment added to a doc comment makes it do so)
+				continue
+			}
 			if got[t] != carried[t] {
 				return "c04-once", fmt.Sprintf("comment %s, held %d times by the tree before the numbered comments were added, occurs %d times in the output", clip(t, 80), carried[t], got[t])
 			}
